@@ -15,6 +15,8 @@ pub type Src<T> = Arc<Source<T>>;
 /// probes stop reacting with Pulls after this many received messages (keeps every scenario finite)
 pub const MAX_MSGS: usize = 96;
 
+pub const UNBOUNDED_LIMIT: u32 = 5_000;
+
 #[derive(Debug)]
 pub struct HErr(pub u32);
 impl fmt::Display for HErr {
@@ -138,14 +140,16 @@ pub struct Inner {
 }
 
 pub struct World {
-    pub sc: Scenario,
     inner: Mutex<Inner>,
+    /// run at the end of a scenario: break the reference cycles between harness actors and crate
+    /// closures so that a campaign of millions of scenarios does not accumulate memory
+    cleanups: Mutex<Vec<Box<dyn FnOnce() + Send>>>,
 }
 
 impl World {
     pub fn new(sc: &Scenario) -> Arc<World> {
         Arc::new(World {
-            sc: sc.clone(),
+            cleanups: Mutex::new(vec![]),
             inner: Mutex::new(Inner {
                 log: Vec::with_capacity(256),
                 stack: vec![],
@@ -215,12 +219,22 @@ impl World {
             Message::Terminate => M::Terminate,
         }
     }
+    pub fn on_finish(&self, f: Box<dyn FnOnce() + Send>) {
+        self.cleanups.lock().unwrap_or_else(|e| e.into_inner()).push(f);
+    }
+    /// ends the scenario: releases what the actors hold and hands out the history
     pub fn into_history(&self) -> History {
-        let g = self.lock();
+        let cl: Vec<_> = std::mem::take(&mut *self.cleanups.lock().unwrap_or_else(|e| e.into_inner()));
+        for f in cl {
+            f();
+        }
+        let mut g = self.lock();
+        g.errs.clear();
+        g.stack = vec![];
         History {
-            log: g.log.clone(),
+            log: std::mem::take(&mut g.log),
             skipped_by_guard: g.skipped_by_guard,
-            harness_errors: g.harness_errors.clone(),
+            harness_errors: std::mem::take(&mut g.harness_errors),
         }
     }
 }
@@ -238,22 +252,23 @@ pub struct Puppet<T> {
     world: Arc<World>,
     spec: PuppetSpec,
     sinks: Mutex<Vec<Arc<Sink<T>>>>,
-    item: Box<dyn Fn(u32) -> Option<(T, Val)> + Send + Sync>,
+    item: Mutex<Option<Box<dyn Fn(u32) -> Option<(T, Val)> + Send + Sync>>>,
 }
 
 impl<T: Send + Sync + 'static> Puppet<T> {
     pub fn new(
         id: u8,
         world: &Arc<World>,
+        spec: PuppetSpec,
         item: Box<dyn Fn(u32) -> Option<(T, Val)> + Send + Sync>,
     ) -> Arc<Self> {
-        Arc::new(Puppet {
-            id,
-            world: Arc::clone(world),
-            spec: world.sc.puppets[id as usize].clone(),
-            sinks: Mutex::new(vec![]),
-            item,
-        })
+        let p = Arc::new(Puppet { id, world: Arc::clone(world), spec, sinks: Mutex::new(vec![]), item: Mutex::new(Some(item)) });
+        let p2 = Arc::clone(&p);
+        world.on_finish(Box::new(move || {
+            p2.sinks.lock().unwrap_or_else(|e| e.into_inner()).clear();
+            *p2.item.lock().unwrap_or_else(|e| e.into_inner()) = None;
+        }));
+        p
     }
 
     pub fn source(self: &Arc<Self>) -> Src<T> {
@@ -376,7 +391,10 @@ impl<T: Send + Sync + 'static> Puppet<T> {
             a => a,
         };
         match act {
-            PAct::Emit => match (self.item)(emitted) {
+            PAct::Emit => match {
+                let it = self.item.lock().unwrap_or_else(|e| e.into_inner());
+                it.as_ref().and_then(|f| f(emitted))
+            } {
                 Some((v, val)) => {
                     self.world.lock().pups[self.id as usize][inst].emitted += 1;
                     self.send(inst, M::Data(val), Message::Data(v));
@@ -475,13 +493,11 @@ pub struct Probe<T> {
 }
 
 impl<T: ToVal + Send + Sync + 'static> Probe<T> {
-    pub fn new(id: u8, world: &Arc<World>) -> Arc<Self> {
-        Arc::new(Probe {
-            id,
-            world: Arc::clone(world),
-            spec: world.sc.sinks.get(id as usize).cloned().unwrap_or_default(),
-            tb: Mutex::new(vec![]),
-        })
+    pub fn new(id: u8, world: &Arc<World>, spec: SinkSpec) -> Arc<Self> {
+        let p = Arc::new(Probe { id, world: Arc::clone(world), spec, tb: Mutex::new(vec![]) });
+        let p2 = Arc::clone(&p);
+        world.on_finish(Box::new(move || p2.tb.lock().unwrap_or_else(|e| e.into_inner()).clear()));
+        p
     }
     /// a fresh sink callbag for one subscription (a new epoch of this probe)
     pub fn sink(self: &Arc<Self>) -> Arc<Sink<T>> {
@@ -702,7 +718,9 @@ impl Clone for CountingIter {
 impl Iterator for CountingIter {
     type Item = i64;
     fn next(&mut self) -> Option<i64> {
-        let r = if self.bounded && self.pos >= self.n {
+        // an "unbounded" iterator is cut off after UNBOUNDED_LIMIT items so that a pipeline that fails to
+        // stop pulling shows up as a wrong result instead of a hang
+        let r = if (self.bounded && self.pos >= self.n) || (!self.bounded && self.pos >= UNBOUNDED_LIMIT) {
             None
         } else {
             let v = self.start.wrapping_add(self.step.wrapping_mul(self.pos as i64));
@@ -730,6 +748,7 @@ pub struct Built {
 
 struct Builder<'a> {
     world: &'a Arc<World>,
+    sc: &'a Scenario,
     pups: Vec<Option<Arc<dyn PupDriver>>>,
 }
 
@@ -738,6 +757,7 @@ impl<'a> Builder<'a> {
         let p = Puppet::<i64>::new(
             id,
             self.world,
+            self.sc.puppets[id as usize].clone(),
             Box::new(move |k| {
                 let v = puppet_value(id, k);
                 Some((v, Val::I(v)))
@@ -847,6 +867,7 @@ impl<'a> Builder<'a> {
                 let p = Puppet::<Src<i64>>::new(
                     id,
                     self.world,
+                    self.sc.puppets[id as usize].clone(),
                     Box::new(move |k| inner_srcs.get(k as usize).map(|s| (Arc::clone(s), Val::Src(k as u16)))),
                 );
                 let src = p.source();
@@ -872,9 +893,8 @@ impl<'a> Builder<'a> {
     }
 }
 
-pub fn build(world: &Arc<World>) -> Built {
-    let mut b = Builder { world, pups: (0..world.sc.puppets.len()).map(|_| None).collect() };
-    let sc = &world.sc;
+pub fn build(world: &Arc<World>, sc: &Scenario) -> Built {
+    let mut b = Builder { world, sc, pups: (0..sc.puppets.len()).map(|_| None).collect() };
     let root = match (&sc.topo, sc.root_tuple) {
         (Topo::Combine(ts), true) => {
             let m = b.members(ts);
@@ -952,13 +972,14 @@ pub fn payload_string(p: &Box<dyn Any + Send>) -> String {
 pub fn run(sc: &Scenario) -> History {
     install_panic_hook();
     let world = World::new(sc);
-    let built = build(&world);
+    let built = build(&world, sc);
+    let spec_of = |i: u8| sc.sinks.get(i as usize).cloned().unwrap_or_default();
     let probes: Vec<AnyProbe> = (0..sc.sinks.len().max(1) as u8)
         .map(|i| match &built.root {
-            Root::I(_) => AnyProbe::I(Probe::new(i, &world)),
-            Root::T1(_) => AnyProbe::T1(Probe::new(i, &world)),
-            Root::T2(_) => AnyProbe::T2(Probe::new(i, &world)),
-            Root::T3(_) => AnyProbe::T3(Probe::new(i, &world)),
+            Root::I(_) => AnyProbe::I(Probe::new(i, &world, spec_of(i))),
+            Root::T1(_) => AnyProbe::T1(Probe::new(i, &world, spec_of(i))),
+            Root::T2(_) => AnyProbe::T2(Probe::new(i, &world, spec_of(i))),
+            Root::T3(_) => AnyProbe::T3(Probe::new(i, &world, spec_of(i))),
         })
         .collect();
 
